@@ -104,13 +104,14 @@ class ShapeClass:
             return "T"
         if o == "sub":
             if t.idx.op == "const" and isinstance(t.idx.value, int):
-                pr = project(self.ev, t.obj, t.idx.value)
-                if pr is not None:
-                    return self.of(pr, none)
                 if t.obj.op == "call":
                     r, _ = resolve_callee(self.ev, t.obj)
                     if r is not None and r.qual.endswith(".repeat_to_match_shape"):
+                        self.of(t.obj.args[0], none) if t.obj.args else None
                         return "F" if t.idx.value == 0 else "S"
+                pr = project(self.ev, t.obj, t.idx.value)
+                if pr is not None:
+                    return self.of(pr, none)
             return "T"
         if o in ("tuple", "list"):
             return "T"
